@@ -161,13 +161,13 @@ def observe_real(root, oc):
                 st = os.lstat(full)
                 o["ino"][addr] = st.st_ino
                 o["raw"][addr] = os.path.relpath(full, xvc)
-                dw = "1" if os.stat(dp).st_mode & 0o200 else "0"
+                dw = "1" if os.stat(dp).st_mode & 0o222 else "0"
                 if stat.S_ISLNK(st.st_mode):
                     tgt = os.readlink(full)
                     ta = parse_cache_path(os.path.relpath(tgt, xvc)) if tgt.startswith(xvc) else None
                     kind, w = "L" + (ta or "?" + tgt), "-"
                 else:
-                    kind, w = "F", ("1" if st.st_mode & 0o200 else "0")
+                    kind, w = "F", ("1" if st.st_mode & 0o222 else "0")
                     ino_to_addr.setdefault(st.st_ino, addr)
                 try:
                     b = open(full, "rb").read().hex()
@@ -190,7 +190,7 @@ def observe_real(root, oc):
                 kind, w = "L" + (ta or "?" + tgt), "-"
             else:
                 a = ino_to_addr.get(st.st_ino)
-                kind, w = ("H" + a if a else "F"), ("1" if st.st_mode & 0o200 else "0")
+                kind, w = ("H" + a if a else "F"), ("1" if st.st_mode & 0o222 else "0")
             try:
                 b = open(full, "rb").read().hex()
             except OSError:
@@ -264,7 +264,9 @@ class RealRun:
     def do(self, it):
         k = it[0]
         if k == "W":
-            self.repo.write(it[1], it[2]); self.user_stamp(self.repo.path(it[1])); return "Ok", None
+            self.repo.write(it[1], it[2])
+            os.chmod(self.repo.path(it[1]), (0o644, 0o664, 0o666)[(self.tick + len(it[1])) % 3])
+            self.user_stamp(self.repo.path(it[1])); return "Ok", None
         if k == "T":
             p = self.repo.path(it[1])
             if not os.path.lexists(p):
